@@ -35,6 +35,9 @@ def first_on_or_after(n, pred):
 
 
 def run(ctx):
+    from rules import shared
+    ctx.include('month_records', shared.month_records)   # leap table, solstice anchor, month memo, memo cells (shared, cached per source hash)
+    ctx.include('jd_tables', shared.jd_tables)           # civil date <-> day number per (year, month) (shared, cached per source hash)
     I = ctx.interp(fuel=60000000)
     t = T(I)
     p = ctx.prog
@@ -176,55 +179,55 @@ def run(ctx):
           lambda a: u'芒种=%s 小暑=%s day=%s' % (CAL.from_jdn(scen_p[a[0]][(Y, 11)][0]), CAL.from_jdn(scen_p[a[0]][(Y, 13)][0]), CAL.from_jdn(a[1])), fn_site(p, 'SolarDay::get_plum_rain_day'))
 
     # ---------------- pentads: every day of a year; term day index and the three-per-term split
-    tm0 = typical_terms(range(Y - 1, Y + 3))
     ph_names = t.names('PHENOLOGY_NAMES')
-    three = t.names('THREE_PHENOLOGY_NAMES')
+    for era, tm0 in (('', typical_terms(range(Y - 1, Y + 3))), (':julian-era', typical_terms(range(Y - 1, Y + 3), shift=dict((i, -12) for i in range(24))))):
+        three = t.names('THREE_PHENOLOGY_NAMES')
 
-    def pheno(n):
-        cm = CalModel(I, tm0, months)
-        d = cm.solar_day_n(n)
-        r = t.m(d, 'get_phenology_day')
-        ph = t.m(r, 'get_phenology')
-        td = t.m(d, 'get_term_day')
-        return (t.name(ph), py(t.m(r, 'get_day_index')), t.name(t.m(ph, 'get_three_phenology')), t.name(t.m(td, 'get_solar_term')), py(t.m(td, 'get_day_index')))
+        def pheno(n):
+            cm = CalModel(I, tm0, months)
+            d = cm.solar_day_n(n)
+            r = t.m(d, 'get_phenology_day')
+            ph = t.m(r, 'get_phenology')
+            td = t.m(d, 'get_term_day')
+            return (t.name(ph), py(t.m(r, 'get_day_index')), t.name(t.m(ph, 'get_three_phenology')), t.name(t.m(td, 'get_solar_term')), py(t.m(td, 'get_day_index')))
 
-    def pheno_orc(n):
-        best = max((tn, ti) for (ty, ti), (tn, ts) in tm0.items() if tn <= n)
-        i = n - best[0]
-        pent = min(i // 5, 2)
-        return (ph_names[best[1] * 3 + pent], i - 5 * pent, three[pent], TERMS[best[1]], i)
-    table(ctx, R, 'SolarDay::get_phenology_day', days, pheno, pheno_orc, u'七十二候: three per term (days 0-4, 5-9, 10+); term day index counts from the term day',
-          lambda n: '%d-%02d-%02d' % CAL.from_jdn(n), fn_site(p, 'SolarDay::get_phenology_day'))
+        def pheno_orc(n):
+            best = max((tn, ti) for (ty, ti), (tn, ts) in tm0.items() if tn <= n)
+            i = n - best[0]
+            pent = min(i // 5, 2)
+            return (ph_names[best[1] * 3 + pent], i - 5 * pent, three[pent], TERMS[best[1]], i)
+        table(ctx, R, 'SolarDay::get_phenology_day' + era, days, pheno, pheno_orc, u'七十二候: three per term (days 0-4, 5-9, 10+); term day index counts from the term day',
+              lambda n: '%d-%02d-%02d' % CAL.from_jdn(n), fn_site(p, 'SolarDay::get_phenology_day'))
 
-    # ---------------- commanding stems: 12 months x day index 0..32 from the Jie day
-    jie_branch = dict((i, G.BRANCHES[(2 + (i - 3) // 2) % 12]) for i in range(1, 24, 2))   # 立春(3)->寅 ... 小寒(1)->丑
-    domc = []
-    for ti in range(1, 24, 2):
-        tn = tm0[(Y, ti)][0]
-        nxt = tm0[(Y, ti + 2)][0] if ti + 2 < 24 else tm0[(Y + 1, 1)][0]
-        domc += [(ti, k) for k in range(0, nxt - tn)]
+        # ---------------- commanding stems: 12 months x day index 0..32 from the Jie day
+        jie_branch = dict((i, G.BRANCHES[(2 + (i - 3) // 2) % 12]) for i in range(1, 24, 2))   # 立春(3)->寅 ... 小寒(1)->丑
+        domc = []
+        for ti in range(1, 24, 2):
+            tn = tm0[(Y, ti)][0]
+            nxt = tm0[(Y, ti + 2)][0] if ti + 2 < 24 else tm0[(Y + 1, 1)][0]
+            domc += [(ti, k) for k in range(0, nxt - tn)]
 
-    def cmd(a):
-        ti, k = a
-        cm = CalModel(I, tm0, months)
-        r = t.m(cm.solar_day_n(tm0[(Y, ti)][0] + k), 'get_hide_heaven_stem_day')
-        h = t.m(r, 'get_hide_heaven_stem')
-        return (t.name(t.m(h, 'get_heaven_stem')), t.name(t.m(h, 'get_type')), py(t.m(r, 'get_day_index')))
+        def cmd(a):
+            ti, k = a
+            cm = CalModel(I, tm0, months)
+            r = t.m(cm.solar_day_n(tm0[(Y, ti)][0] + k), 'get_hide_heaven_stem_day')
+            h = t.m(r, 'get_hide_heaven_stem')
+            return (t.name(t.m(h, 'get_heaven_stem')), t.name(t.m(h, 'get_type')), py(t.m(r, 'get_day_index')))
 
-    def cmd_orc(a):
-        ti, k = a
-        slots = COMMAND[jie_branch[ti]]
-        acc = 0
-        for si, s in enumerate(slots):
-            if s is None:
-                continue
-            stem, cnt = s
-            if cnt is None or k < acc + cnt:
-                return (stem, TYPE_NAMES[si], k - acc)
-            acc += cnt
-        raise AssertionError
-    table(ctx, R, 'SolarDay::get_hide_heaven_stem_day', domc, cmd, cmd_orc, u'人元司令分野: classical per-month allotment counted from the Jie day, day index restarting at 0 in each allotment',
-          lambda a: u'%s月(%s) 第%d日' % (jie_branch[a[0]], TERMS[a[0]], a[1]), fn_site(p, 'SolarDay::get_hide_heaven_stem_day'))
+        def cmd_orc(a):
+            ti, k = a
+            slots = COMMAND[jie_branch[ti]]
+            acc = 0
+            for si, s in enumerate(slots):
+                if s is None:
+                    continue
+                stem, cnt = s
+                if cnt is None or k < acc + cnt:
+                    return (stem, TYPE_NAMES[si], k - acc)
+                acc += cnt
+            raise AssertionError
+        table(ctx, R, 'SolarDay::get_hide_heaven_stem_day' + era, domc, cmd, cmd_orc, u'人元司令分野: classical per-month allotment counted from the Jie day, day index restarting at 0 in each allotment',
+              lambda a: u'%s月(%s) 第%d日' % (jie_branch[a[0]], TERMS[a[0]], a[1]), fn_site(p, 'SolarDay::get_hide_heaven_stem_day'))
 
     ctx.assumptions.append('numeric layer replaced by oracles: civil date <-> day number (C01), term days (C05/C06), pillar (day number + 49) mod 60 (C07)')
     ctx.not_decided.append('on which civil days the anchoring terms fall and which days are 庚/丙/未 on the real calendar (numeric: C05/C06/C07)')
